@@ -401,5 +401,5 @@ func ruleR12(c *Ctx) {
 			}
 		}
 	}
-	c.floor("R12", "output write sites", 8, nsinks)
+	c.floor("R12", "output write sites", 4, nsinks)
 }
